@@ -465,13 +465,22 @@ def verdict(prop, mod, tier, seed, groups, results, t0, a):
     if baseline is not None:
         baseline = set(s_ for s_ in baseline if not _incidental(s_))
     missing = []
-    left_any = any(r.get('left_fragment') for r in results)
+    # a path that ended in an exception nobody reproduced on the real code (typically the real code asking a harness stand-in for something it does not model) is a
+    # limit of the harness as well: the obligations that path would have produced are undecided, not violated; the exception itself is reported on its own line
+    unrepro = set()
+    for r in results:
+        if r.get('unexpected'):
+            obs_ = [o for o in r['obligations'] if o.get('kind') == 'exception' and o.get('result') == 'refuted']
+            if obs_ and not any((o.get('replay') or {}).get('reproduced') for o in obs_):
+                unrepro.add(r['group'])
+    left_any = any(r.get('left_fragment') for r in results) or bool(unrepro)
     if baseline is not None and a.group is None and not broken and left_any:
         # some symbolic execution stopped for a reason of the tool (unmodelled construct, block not found): obligations that were not generated are undecided, not violated
         have = proved_stems | failed_stems
         lost = [s_ for s_ in sorted(baseline) if s_ not in have and not (tier == 'quick' and s_.startswith('T:'))]
         if lost:
-            undecided.append('%d baseline obligations were not generated because a path left the modelled fragment (first: %s)' % (len(lost), lost[0]))
+            undecided.append('%d baseline obligations were not generated because a path left the modelled fragment%s (first: %s)' % (
+                len(lost), ' or ended in an exception that the replay on the real code did not reproduce' if unrepro else '', lost[0]))
     if baseline is not None and a.group is None and not broken and not left_any:
         have = proved_stems | failed_stems
         for s in sorted(baseline):
